@@ -27,6 +27,17 @@ def run(ctx, rep):
     add_delta(ctx.prog, rep)
     delta_tick(ctx.prog, rep)
     manager(ctx.prog, rep)
+    # the reviewed `assert!(parts.insert(..).is_none())` of DeltaReceiver::snap rests on the duplicate test in front of it
+    from .C12 import completion
+    from ..report import Report
+    sub = Report("C12", rep.tier, rep.seed)
+    completion(ctx.prog, sub)
+    n = 0
+    for o in sub.obs:
+        if "insert#" in o["key"]:
+            n += 1
+            rep.ob("R5-duplicate-part-refused", o["key"].split(" | ", 2)[2], o["ok"], o["detail"], o["at"])
+    rep.floor("R5-duplicate-part-refused", n, 1, "parts.insert in DeltaReceiver::snap")
 
 
 def _stores_to(body, ir, field):
